@@ -37,6 +37,9 @@ type Engine struct {
 	specList []*FuncSpec
 	overlay  map[string][]byte
 	drift    []string
+	// wrappers of mid-function clauses that did not type-check in the full load (the code they are anchored in changed
+	// shape): regenerated without them, the clauses are reported as lost anchors
+	badWrappers map[string]string
 	recSpec  map[*ssa.Function]bool
 
 	nodeAt     map[*ssa.Function]map[token.Pos]ast.Node
@@ -103,6 +106,15 @@ func loadEngine(repo string, patterns []string, extraOverlay map[string][]byte) 
 		sort.Strings(extra)
 		patterns = append(append([]string{}, patterns...), extra...)
 	}
+	eng.badWrappers = map[string]string{}
+retry:
+	eng.drift = nil
+	eng.cfiles = map[string]*ContractFile{}
+	for k := range eng.overlay {
+		if strings.HasSuffix(k, overlayFileName) {
+			delete(eng.overlay, k)
+		}
+	}
 	// phase 1: roots only, for parameter names and local scopes
 	cfg1 :=&packages.Config{Mode: packages.NeedName | packages.NeedFiles | packages.NeedCompiledGoFiles | packages.NeedImports | packages.NeedTypes | packages.NeedSyntax | packages.NeedTypesInfo | packages.NeedTypesSizes,
 		Dir: repo, BuildFlags: []string{"-tags=verif"}, Overlay: eng.overlay, Fset: token.NewFileSet()}
@@ -139,6 +151,13 @@ func loadEngine(repo string, patterns []string, extraOverlay map[string][]byte) 
 	}
 	for _, p := range p2 {
 		for _, e := range p.Errors {
+			// a type error inside the wrapper of a mid-function clause: drop that clause and load again
+			if w, why := eng.wrapperOfError(e); w != "" && len(eng.badWrappers) < 16 {
+				if _, seen := eng.badWrappers[w]; !seen {
+					eng.badWrappers[w] = why
+					goto retry
+				}
+			}
 			return nil, fmt.Errorf("contract drift or load error in %s: %v", p.PkgPath, e)
 		}
 	}
@@ -152,6 +171,38 @@ func loadEngine(repo string, patterns []string, extraOverlay map[string][]byte) 
 		return nil, err
 	}
 	return eng, nil
+}
+
+// wrapperOfError: the wrapper function of the generated specification file that a type error lies in.
+func (eng *Engine) wrapperOfError(e packages.Error) (string, string) {
+	// Pos is "file:line:col"
+	parts := strings.Split(e.Pos, ":")
+	if len(parts) < 2 || !strings.HasSuffix(parts[0], overlayFileName) {
+		return "", ""
+	}
+	var line int
+	fmt.Sscanf(parts[1], "%d", &line)
+	src, ok := eng.overlay[parts[0]]
+	if !ok || line < 1 {
+		return "", ""
+	}
+	lines := strings.Split(string(src), "\n")
+	if line > len(lines) {
+		return "", ""
+	}
+	ln := lines[line-1]
+	if !strings.HasPrefix(ln, "func ") {
+		return "", ""
+	}
+	name := strings.TrimPrefix(ln, "func ")
+	if i := strings.IndexAny(name, "(["); i > 0 {
+		name = name[:i]
+	}
+	// only mid-function clauses can be dropped (their anchors are part of the code's shape)
+	if !strings.Contains(name, "_assert_") && !strings.Contains(name, "_inv") {
+		return "", ""
+	}
+	return name, e.Msg
 }
 
 func pkgDir(p *packages.Package) string {
@@ -440,6 +491,9 @@ func (eng *Engine) genOverlay(p *packages.Package, cf *ContractFile, fset *token
 		base := "__w_" + sanitizeIdent(fs.Name)
 		emit := func(cl *Clause, kind string, withResults bool, pos token.Pos) error {
 			cl.WrapperName = fmt.Sprintf("%s_%s_%s", base, kind, sanitizeIdent(cl.Label))
+			if why, bad := g.eng.badWrappers[cl.WrapperName]; bad {
+				return fmt.Errorf("%s:%d: clause does not type-check against this tree: %s", cf.Path, cl.Line, why)
+			}
 			params, decl, err := g.clauseParams(fi, cl.Go, withResults, pos)
 			if err != nil {
 				return fmt.Errorf("%s:%d: %v", cf.Path, cl.Line, err)
@@ -763,7 +817,7 @@ func (g *overlayGen) paramsFromNode(fi *funcInfo, node ast.Node, withResults boo
 		pidx[n] = i
 	}
 	for _, name := range order {
-		if i, ok := pidx[name]; ok {
+		if i, ok := pidx[name]; ok && !g.shadowedAt(fi, name, pos) {
 			params = append(params, ClauseParam{Kind: pkParam, Index: i, Name: name})
 			decl = append(decl, name+" "+types.TypeString(fi.ptypes[i], g.qual))
 			continue
@@ -934,6 +988,34 @@ func (g *overlayGen) paramsFromNode(fi *funcInfo, node ast.Node, withResults boo
 		decl = append(decl, name+" "+types.TypeString(v.Type(), g.qual))
 	}
 	return params, strings.Join(decl, ", "), nil
+}
+
+// shadowedAt: at the clause's position a local variable hides the parameter of that name (for i := range ... inside
+// func Less(i, j int)).
+func (g *overlayGen) shadowedAt(fi *funcInfo, name string, pos token.Pos) bool {
+	if fi.decl == nil || pos == token.NoPos {
+		return false
+	}
+	sc := g.p.TypesInfo.Scopes[fi.decl.Type]
+	if sc == nil {
+		return false
+	}
+	inner := sc.Innermost(pos)
+	if inner == nil || inner == sc {
+		return false
+	}
+	declScope, obj := inner.LookupParent(name, pos)
+	if obj == nil || declScope == sc {
+		return false
+	}
+	_, isVar := obj.(*types.Var)
+	// a scope strictly inside the function's own scope declares it
+	for s := declScope; s != nil; s = s.Parent() {
+		if s == sc {
+			return isVar
+		}
+	}
+	return false
 }
 
 func (g *overlayGen) declared(name string) bool {
